@@ -448,10 +448,31 @@ example : ∃ s, SRAReach SRA.init s ∧ s.todo = some [2] :=
 
 /-- **Counter under every interleaving** of `Set` on the inputs (delivered later, in order, per
 monitor), `Monitor` and unsubscriptions: at quiescence the counter is the number of live monitors
-whose input satisfies the condition. -/
-theorem C14_counter_concurrent (cond : Int → Bool) (s : CTA) (hr : CTAReach (CTA.init cond) s) (hq : s.quiescent) :
+whose input satisfies the condition.  `flag` is the `triggerWithInitialZeroValue` argument of `Monitor`'s subscription:
+without it a monitor of an input that holds the zero value is registered silently, which is harmless only if the
+condition is false for the zero value — so either the flag or that (hypothesis `hf`; `C14_counter_needs_flag_witness`). -/
+theorem C14_counter_concurrent (flag : Bool) (cond : Int → Bool) (hf : flag = true ∨ cond 0 = false) (s : CTA)
+    (hr : CTAReach flag (CTA.init cond) s) (hq : s.quiescent) :
     s.counter = (s.expected : Nat) :=
-  CTA.counter_eq_expected s (CTA.inv_reach _ _ (CTA.inv_init cond) hr) hq
+  CTA.counter_eq_expected s (CTA.inv_reach _ _ hf (CTA.inv_init cond) hr) hq
+
+/-- The Counter as it is in `counter_impl.go`: `Monitor` subscribes with the flag (regenerated: `subs_counter_Monitor`),
+so the result holds for **every** condition — also one that is true for the zero value (`even`, in the harness). -/
+theorem C14_counter_concurrent_code (cond : Int → Bool) (s : CTA)
+    (hr : CTAReach (trigOf Hive.Gen.C14Facts.subs_counter_Monitor 0) (CTA.init cond) s) (hq : s.quiescent) :
+    s.counter = (s.expected : Nat) :=
+  C14_counter_concurrent _ cond (Or.inl (by decide)) s hr hq
+
+/-- Without the flag a condition that holds for the zero value is miscounted: one `Monitor` of an input that holds 0,
+condition "even": nothing is queued, the counter is 0, one monitored input satisfies the condition. -/
+theorem C14_counter_needs_flag_witness :
+    ∃ s, CTAReach false (CTA.init (fun v => v % 2 == 0)) s ∧ s.quiescent ∧ s.counter = 0 ∧ s.expected = 1 := by
+  refine ⟨_, CTAReach.tail (CTAReach.refl _) (CTAStep.monitor _ 0), ?_, rfl, ?_⟩
+  · intro m hm _
+    simp only [CTA.init, List.nil_append, List.mem_singleton] at hm
+    subst hm
+    rfl
+  · rfl
 
 /-- **SortedSet under every interleaving** of `Add` / `Delete` with weight updates whose callbacks run
 later (in order per element; updates of a removed element are dropped): the slice is always sorted
